@@ -119,7 +119,7 @@ STRUCTS = {
     "Vector": (["vec"], "{0}", "vec"),
     "Matrix": (["mat", "rows", "cols"], "(mkM {0} {1} {2})", "mat"),
 }
-CONSTS = {}
+CONSTS = {"None": ("None", ("opt", "any")), "true": ("true", "bool"), "false": ("false", "bool")}
 
 # ---------------------------------------------------------------------------------------------------- translated functions
 # name: Gallina name is s_<name>;  file/impl/fn: the source anchor (impl = regex over the whitespace-free impl header);
@@ -197,6 +197,7 @@ P_MOD, P_ARI = "src/polynomial/mod.rs", "src/polynomial/arithmetic.rs"
 MODULES["Poly"] = dict(
     imports="From OV Require Import Base.Panic Base.Arith Model.Poly gen.SrcPrelude.",
     funcs=[
+        dict(name="is_zero", file=P_MOD, impl=r"^<T>Polynomial<T>$", fn="is_zero"),
         dict(name="peval", file=P_MOD, impl=r"^<T>Polynomial<T>$", fn="eval"),
         dict(name="pderiv", file=P_MOD, impl=r"^<T:Clone\+Copy\+Zero\+Mul<Output=T>\+Add<Output=T>>Polynomial<T>$", fn="derivative"),
         dict(name="pderiv_n", file=P_MOD, impl=r"^<T:Clone\+Copy\+Zero\+Mul<Output=T>\+Add<Output=T>>Polynomial<T>$", fn="derivative_n"),
@@ -334,6 +335,7 @@ METHODS.update({
     ("sp", "transpose_multiply", 1): dict(g="sp_tmul {0} {1}", ret="vec", fallible=True, args=["vec"]),
 })
 PATHS[("Vector::empty", 0)] = dict(g="(@nil (T A))", ret="vec", atom=True)
+PATHS[("Self::from_triplets", 3)] = dict(g="sp_from_triplets {0} {1} {2}", ret="sp", fallible=True, args=["usize", "usize", "vect"])
 PATHS[("Sparse::new_nonzero", 3)] = dict(g="mkS {0} {1} {2} (repeat (@zero A) {2}) (repeat 0 {2}) (repeat 0 ({1} + 1)%nat)", ret="sp", args=["usize"] * 3)
 SPR = "src/sparse.rs"
 SP_IMPL = r"^<T:Copy\+Number\+std::fmt::Debug>Sparse<T>$"
@@ -344,6 +346,7 @@ MODULES["Sparse"] = dict(
         dict(name="sp_from_vecs", file=SPR, impl=SP_IMPL, fn="from_vecs"),
         dict(name="sp_col_index", file=SPR, impl=SP_IMPL, fn="col_index", locals={"temp": "vecn"}),
         dict(name="sp_col_start_from_index", file=SPR, impl=SP_IMPL, fn="col_start_from_index"),
+        dict(name="sp_get", file=SPR, impl=SP_IMPL, fn="get"),
         dict(name="sp_scale", file=SPR, impl=SP_IMPL, fn="scale"),
         dict(name="sp_mul", file=SPR, impl=SP_IMPL, fn="multiply"),
         dict(name="sp_tmul", file=SPR, impl=SP_IMPL, fn="transpose_multiply"),
@@ -351,4 +354,5 @@ MODULES["Sparse"] = dict(
         dict(name="sp_ident_pre", file=SPR, impl=SP_IMPL, fn="identity_preconditioner"),
         dict(name="sp_to_triplets", file=SPR, impl=SP_IMPL, fn="to_triplets", locals={"triplets": "vect"}),
         dict(name="sp_to_dense", file=SPR, impl=SP_IMPL, fn="to_dense"),
+        dict(name="sp_insert", file=SPR, impl=SP_IMPL, fn="insert"),
     ])
